@@ -589,4 +589,23 @@ example :
     exportPages ⟨0, 3, 1, ⟨0, 1, 0, 1⟩⟩ f = .ok [⟨10, 20, 8, [[0]]⟩, ⟨20, 35, 8, [[1]]⟩, ⟨35, 50, 8, [[2]]⟩] := by
   decide
 
+/-- Legacy or not: the pages a frame slice looks at are exactly `pages[a:b:c]` of the pages the stack looks at (so
+    for a legacy file `export_legacy_tags` describes the export of the selection: the frame ranges are
+    reconstructed from the selected pages' own start times). -/
+theorem visible_selection {α} (s : Stack) (f : File α) (hst : 0 < s.st) (a b c : Option Int) (hc : 0 < c.getD 1)
+    (s' : Stack) (h : s.sliceFrames a b c = .ok s') :
+    s'.visible f = pySliceStep (s.visible f) a b (c.getD 1).toNat ∧ s'.roi = s.roi ∧ 0 < s'.st := by
+  have h0 := slice_refines s hst a b c hc
+  rw [h] at h0
+  simp only at h0
+  obtain ⟨hfr, _, hst', hroi⟩ := h0
+  refine ⟨?_, hroi, hst'⟩
+  unfold Stack.visible
+  rw [hfr, pySliceStep_map]
+
+example :
+    let f : File Int := ⟨[⟨10, 18, 18, [[0]]⟩, ⟨20, 28, 28, [[1]]⟩, ⟨35, 43, 43, [[2]]⟩, ⟨45, 53, 53, [[3]]⟩], true⟩
+    ((Stack.sliceFrames ⟨0, 4, 1, ⟨0, 1, 0, 1⟩⟩ none none (some 2)).toOption.map fun s' => exportPages s' f)
+      = some (.ok [⟨10, 35, 8, [[0]]⟩, ⟨35, 60, 8, [[2]]⟩]) := by decide
+
 end Verif.C18
